@@ -470,8 +470,10 @@ fn run_reader(ctx: &mut Ctx, key: &SignedSecretKey) {
         Cfg { utf8: false, compression: None, sign: true, enc: Enc::V2, armor: true, chunk: 512 },
         Cfg { utf8: true, compression: Some(CompressionAlgorithm::ZIP), sign: false, enc: Enc::V2, armor: false, chunk: 512 },
     ];
-    let sizes: Vec<usize> = if ctx.thorough() { vec![0, 1, 63, 64, 65, 506, 512, 1018, 2000, 9000] } else { vec![0, 1, 64, 506, 1100] };
-    let pats = [Pattern::ReadToEnd, Pattern::Fixed(1), Pattern::Fixed(7), Pattern::Fixed(8192), Pattern::ZeroMix(50), Pattern::BufRead(13)];
+    // (payloads beyond the 8 KiB internal buffers of the readers as well, read with sizes that do not
+    //  divide 8192: a reader that tops up a partly consumed buffer meets them)
+    let sizes: Vec<usize> = if ctx.thorough() { vec![0, 1, 63, 64, 65, 506, 512, 1018, 2000, 9000, 20000, 33000] } else { vec![0, 1, 64, 506, 1100, 9000, 20011] };
+    let pats = [Pattern::ReadToEnd, Pattern::Fixed(1), Pattern::Fixed(7), Pattern::Fixed(8192), Pattern::ZeroMix(50), Pattern::BufRead(13), Pattern::Fixed(100), Pattern::Fixed(4095), Pattern::Fixed(8191), Pattern::Fixed(1000)];
     for cfg in &cfgs {
         for &n in &sizes {
             let data = payload(&mut rng, cfg.utf8, n);
@@ -482,7 +484,7 @@ fn run_reader(ctx: &mut Ctx, key: &SignedSecretKey) {
             let site = format!("Message reader {cfg:?}");
             let inp = format!("n={n} msg={}", hx(&msg));
             // source schedules x BufReader capacities x consumer patterns
-            let caps = [1usize, 2, 3, 64, 8192, 5, 100];
+            let caps = [1usize, 2, 3, 64, 8192, 5, 100, 4096, 8191, 16384];
             let mut variants = 0;
             for (ci, &cap) in caps.iter().enumerate() {
                 let sched: Vec<usize> = match ci { 0 => vec![1; 1 << 16], 1 => vec![2, 1, 3], 2 => vec![511, 1, 2, 510], _ => vec![] };
